@@ -139,9 +139,13 @@ Proof. exact (generic_preserved_by_expand RESOURCE_MODELS). Qed.
 Print Assumptions C14_generic_preserved_by_expand.
 
 (* ---- the finite facts about the live classes (re-proved against gen/Schema.v on every run) ---- *)
-Theorem C14_schema_18_types : List.length MODELLED_TYPES = 18%nat /\ NoDup MODELLED_TYPES /\ NoDup MODELLED_CLASSES /\ ~ In GENERIC MODELLED_CLASSES.
+Theorem C14_schema_18_types : (18 <= List.length MODELLED_TYPES)%nat /\ NoDup MODELLED_TYPES /\ NoDup MODELLED_CLASSES /\ ~ In GENERIC MODELLED_CLASSES.
 Proof. exact (conj (proj2 Schema_types) Schema_types_distinct). Qed.
 Print Assumptions C14_schema_18_types.
+(* every type string this development was written against is still modelled (the live list may have grown) *)
+Theorem C14_schema_known_types_still_modelled : forall t, In t EXPECTED_TYPES -> In t MODELLED_TYPES.
+Proof. exact Schema_types_in. Qed.
+Print Assumptions C14_schema_known_types_still_modelled.
 Theorem C14_schema_modelled_forbid_extra : forall tc, In tc RESOURCE_MODELS -> modelled_class_ok tc = true.
 Proof. exact Schema_modelled_strict. Qed.
 Print Assumptions C14_schema_modelled_forbid_extra.
